@@ -37,7 +37,7 @@ Proof.
   - (* draft-16 pre-check: nothing shared changes *)
     destruct (ok_alt _ _ _ Hok alt Ealt) as (Hwfalt & Hh & Habs).
     assert (Hok' : thread_ok g i (t_with t (if g_setup g then t_ops t else alt) (t_holds t))).
-    { destruct Hok as [Hwf _ HL Hon' HK HKi HTok HTp HTr HKt HRdy].
+    { destruct Hok as [Hwf _ HL Hon' HK HKi HTok HTp HTr HKt HRdy HKn].
       constructor; simpl; auto; try discriminate.
       rewrite Hh in *. rewrite Habs in *. destruct (g_setup g); auto. }
     split; [|split; [|split]]; auto.
@@ -90,7 +90,7 @@ Definition safe (r : rstate) : Prop := match r with RRun g ts => Inv g ts | _ =>
 Lemma thread_ok_env : forall g i t on fed eof, thread_ok g i t -> (t_on t = true -> on = true) ->
   thread_ok g i (t_env t on fed eof).
 Proof.
-  intros g i t on fed eof [Hwf Halt HL Hon HK HKi HTok HTp HTr HKt HRdy] Himp.
+  intros g i t on fed eof [Hwf Halt HL Hon HK HKi HTok HTp HTr HKt HRdy HKn] Himp.
   constructor; simpl; auto. intros H. destruct (Hon H). auto.
 Qed.
 
@@ -118,7 +118,7 @@ Lemma Inv_core : forall g g' ts,
 Proof.
   intros g g' ts (Hall & Huniq & Hholder & [G1 G2]) E2 E3 E4 E5 HLk.
   split; [|split; [|split]]; auto.
-  - intros j tj Hj. destruct (Hall j tj Hj) as [Hwf Halt HL Hon HK HKi HTok HTp HTr HKt HRdy].
+  - intros j tj Hj. destruct (Hall j tj Hj) as [Hwf Halt HL Hon HK HKi HTok HTp HTr HKt HRdy HKn].
     constructor; rewrite ?E2, ?E3, ?E4, ?E5, ?(ntracks_eq _ _ E5); auto.
     destruct HLk as [E|[[E E']|[E E']]]; rewrite ?E, ?E' in *; auto.
     + split; intros H; [|congruence]. apply HL in H. congruence.
@@ -343,3 +343,62 @@ Lemma as_found_examples :
       | RRun g ts => (g_tracks g, map t_res ts) | _ => (None, []) end)
      = (Some 0, [Some ENil; Some ESubCatalogClosed; Some ETrackRange]).
 Proof. vm_compute. repeat split; reflexivity. Qed.
+
+(* ---- pools of arbitrary well-formed programs (the paths generated from session.go) ------------------------------- *)
+
+Definition thread_of (ops : list op) : thread :=
+  {| t_ops := ops; t_alt := None; t_on := false; t_holds := false; t_fed := false; t_eof := false;
+     t_name := []; t_query := []; t_cat := None; t_pm := None; t_wrote := []; t_snap := None; t_res := None;
+     t_abs := abs0 |}.
+
+Lemma pool_safe : forall name query progs,
+  forallb (wf false abs0) progs = true -> safe (RRun (sess0 name query) (map thread_of progs)).
+Proof.
+  intros name query progs Hwf. simpl.
+  assert (Hnth : forall i t, nth_error (map thread_of progs) i = Some t ->
+                 exists p, t = thread_of p /\ wf false abs0 p = true).
+  { intros i t H. rewrite nth_error_map in H. destruct (nth_error progs i) as [p|] eqn:E; simpl in H; inversion H.
+    exists p. split; auto. rewrite forallb_forall in Hwf. apply Hwf. eapply nth_error_In; eauto. }
+  split; [|split; [|split]].
+  - intros i t H. destruct (Hnth i t H) as [p [-> Hp]].
+    constructor; simpl; try discriminate; auto. split; discriminate.
+  - intros i j ti tj Hi Hj _ _. destruct (Hnth j tj Hj) as [p [-> _]]. reflexivity.
+  - simpl. discriminate.
+  - split; reflexivity.
+Qed.
+
+Theorem wf_pool_no_panic : forall c name query progs ls,
+  forallb (wf false abs0) progs = true ->
+  exists g ts, run c (RRun (sess0 name query) (map thread_of progs)) ls = RRun g ts /\ Inv g ts.
+Proof.
+  intros c name query progs ls H. pose proof (run_safe c ls _ (pool_safe name query progs H)) as Hs.
+  destruct (run c (RRun (sess0 name query) (map thread_of progs)) ls) as [g' ts'| |]; simpl in Hs; try contradiction.
+  eauto.
+Qed.
+
+(* picking programs out of a table whose entries are all well-formed *)
+Lemma picks_wf : forall (A : Type) (table : list (A * list op)) (d : A) picks,
+  forallb (fun p => wf false abs0 (snd p)) table = true ->
+  forallb (wf false abs0) (map (fun k => snd (nth k table (d, []))) picks) = true.
+Proof.
+  intros A table d picks H. apply forallb_forall. intros x Hx. apply in_map_iff in Hx. destruct Hx as [k [<- _]].
+  destruct (Nat.lt_ge_cases k (List.length table)) as [Hlt|Hge].
+  - rewrite forallb_forall in H. apply (H (nth k table (d, []))). apply nth_In. auto.
+  - rewrite nth_overflow by auto. reflexivity.
+Qed.
+
+Theorem table_no_panic : forall (table : list (String.string * list op)),
+  map fst (filter (fun p => negb (wf false abs0 (snd p))) table) = [] ->
+  forall c name query (picks : list nat) ls,
+  exists g ts,
+    run c (RRun (sess0 name query)
+                (map thread_of (map (fun k => snd (nth k table (String.EmptyString, []))) picks))) ls
+    = RRun g ts /\ Inv g ts.
+Proof.
+  intros table Hnil c name query picks ls. apply wf_pool_no_panic. apply picks_wf.
+  apply forallb_forall. intros p Hp.
+  destruct (wf false abs0 (snd p)) eqn:E; auto.
+  assert (Hin : In (fst p) (map fst (filter (fun p => negb (wf false abs0 (snd p))) table))).
+  { apply in_map. apply filter_In. split; auto. rewrite E. reflexivity. }
+  rewrite Hnil in Hin. destruct Hin.
+Qed.
